@@ -223,3 +223,29 @@ def ulp_diff(a, b):
 
 def dbits(x):
     return struct.pack('<d', x).hex()
+
+
+def coll_events(sim):
+    """Signature that changes whenever a step resolved at least one collision: N (merges), collisions_log_n (hard spheres) and
+    rand_seed (the resolution order is drawn with rand_r iff the search found a collision)."""
+    return (int(sim.N), int(sim.collisions_log_n), int(sim.rand_seed))
+
+
+def lockstep_tree_collisions(x, y, k, shash):
+    """Advance x and y k single steps. Returns (first diverging step or None, explained) where explained tells whether the
+    divergence can come from the order dependence of collision resolution (known finding of C05/C17): both runs must have registered
+    collision events in exactly the same steps up to and including the diverging one, and at least once."""
+    ex, ey = coll_events(x), coll_events(y)
+    seen = False
+    for i in range(k):
+        x.steps(1)
+        y.steps(1)
+        nx, ny = coll_events(x), coll_events(y)
+        cx, cy = nx != ex, ny != ey
+        ex, ey = nx, ny
+        if cx != cy:
+            return i + 1, False
+        seen = seen or cx
+        if shash(x) != shash(y):
+            return i + 1, seen
+    return None, True
